@@ -213,14 +213,17 @@ def levels (layer : Nat → Nat) (m : Tree) (k : Nat) : Nat :=
 def lookup (layer : Nat → Nat) (m : Tree) (k : Nat) : Option Nat :=
   get k (m.levels layer k) m.root
 
+/-- one `grow()` (lib.go:299-367) -/
+def growStep (layer : Nat → Nat) (m : Tree) : Tree :=
+  { m with root := grow layer m.height m.root, height := m.height + 1,
+           shrinkBelow := m.growAfter, growAfter := m.growAfter * m.bf }
+
 /-- the grow loop of Insert (pub.go:487-503); `size` is still the old size here -/
 def growLoop (layer : Nat → Nat) : Nat → Tree → Tree
   | 0, m => m
   | fuel+1, m =>
       if m.size ≥ m.growAfter ∧ canGrow layer m.height m.root then
-        growLoop layer fuel
-          { m with root := grow layer m.height m.root, height := m.height + 1,
-                   shrinkBelow := m.growAfter, growAfter := m.growAfter * m.bf }
+        growLoop layer fuel (growStep layer m)
       else m
 
 inductive Res (α : Type) where
@@ -248,15 +251,18 @@ def topEntryless : T → Bool
   | cons _ _ _ _ _ => false
   | _ => true
 
+/-- one `shrink()` (lib.go:382-449) -/
+def shrinkStep (m : Tree) : Tree :=
+  { m with root := T.shrink m.root, height := m.height - 1,
+           shrinkBelow := if m.shrinkBelow > 1 then m.shrinkBelow / m.bf else m.shrinkBelow,
+           growAfter := if m.shrinkBelow > 1 then m.growAfter / m.bf else m.growAfter }
+
 /-- the shrink loop of Delete (pub.go:120-125, with the repaired rule) -/
 def shrinkLoop : Nat → Tree → Tree
   | 0, m => m
   | fuel+1, m =>
       if m.height > 0 ∧ (m.size ≤ m.shrinkBelow ∨ topEntryless m.root) then
-        shrinkLoop fuel
-          { m with root := T.shrink m.root, height := m.height - 1,
-                   shrinkBelow := if m.shrinkBelow > 1 then m.shrinkBelow / m.bf else m.shrinkBelow,
-                   growAfter := if m.shrinkBelow > 1 then m.growAfter / m.bf else m.growAfter }
+        shrinkLoop fuel (shrinkStep m)
       else m
 
 /-- `Delete` (pub.go:89-127) -/
